@@ -6,7 +6,6 @@ package gc
 
 // ---- the cleanup decision (C17): state of a container is removed only if the runtime says the
 // container is gone or has exited; an inspect error other than not-found keeps the state ----
-//@ uninterp getenv(name string) string
 //@ pure goneOrExited(cid string) bool = !(cid in CtrExists) || CtrStatus[cid] == "exited" || CtrStatus[cid] == "dead"
 //@ pure sandboxGoneOrNotReady(cid string) bool = !(cid in SbxExists) || cid in SbxNotReady
 //@ pure deadCtr(cid string) bool = getenv("CONTAINERD_HOST") == "" ? goneOrExited(cid) : sandboxGoneOrNotReady(cid)
